@@ -182,7 +182,7 @@ class FnTaint:
                         if fk == "buf" and len(dst) == 1:
                             self.buf.add(dst[0])
                         elif fk == "scalar" and len(dst) == 1 and (has_int(fn.ty(dst[0]))):
-                            self._new_root(dst[0], "field %s line %s" % (p[-1], st[3]), int_width(fn.ty(dst[0])) or 64)
+                            self.roots[dst[0]] |= self._field_root(p, st[3])
             elif st[0] == "call":
                 c = st[1]
                 f = c["f"]
@@ -274,7 +274,8 @@ class FnTaint:
         return changed
 
     def _field_root(self, p, line):
-        key = [e for e in p[1:] if _named_field(e)][-1][1:]
+        nf = [e for e in p[1:] if _named_field(e)]
+        key = nf[-1][1:] if nf else "captured::" + "".join(str(e) for e in p[1:] if isinstance(e, str))
         if not hasattr(self, "_froots"):
             self._froots = {}
         if key not in self._froots:
